@@ -133,6 +133,11 @@ def check_case(case: dict[str, Any], ctx: Any = None) -> list[str]:
     old_time = (alg.time, pp.time)
     alg.time = iodriver.Clock(D, True)  # type: ignore[assignment]
     pp.time = iodriver.Clock(D, False)  # type: ignore[assignment]
+    # a run that fails (search budget used up, remote message rejected, time-out) is REPORTED through
+    # print_exception and its interaction so far is yielded as the result of the run: record the report
+    reported: list[str] = []
+    old_print = alg.print_exception
+    alg.print_exception = lambda e, *a, **k: reported.append(f"{type(e).__name__}: {str(e)[:150]}")  # type: ignore[assignment]
     error = None
     result = None
     try:
@@ -150,6 +155,9 @@ def check_case(case: dict[str, Any], ctx: Any = None) -> list[str]:
             error = f"{type(e).__name__}: {str(e)[:150]}"
     finally:
         alg.time, pp.time = old_time  # type: ignore[assignment]
+        alg.print_exception = old_print  # type: ignore[assignment]
+    if error is None and reported:
+        error = "reported: " + reported[0]
     msgs: list[str] = []
     faults = list(D.faults)
     fault_free = not faults
